@@ -197,7 +197,7 @@ def make_record(rec_id, st_json, comps, space, rew=None, term=None, actions=None
                     continue
                 seen.add(key)
                 support.append(j)
-                rtypes.append(type(r).__name__)
+                rtypes.append('float' if isinstance(r, float) else type(r).__name__)
                 try:
                     fr = float(r)
                     rfin.append(math.isfinite(fr))
@@ -208,7 +208,7 @@ def make_record(rec_id, st_json, comps, space, rew=None, term=None, actions=None
                     rs.append(0)
                     rex.append(False)
                 dones.append(bool(d))
-                dtypes.append(type(d).__name__)
+                dtypes.append('bool' if isinstance(d, (bool, np.bool_)) else type(d).__name__)
         except rngtools.NotEnumerable:
             full = False
         except Exception as e:  # the code raised
